@@ -1,5 +1,6 @@
 import Driver.Common
 import LinkVerif.Model.SigHash
+import LinkVerif.Model.MultiSign
 
 namespace Driver.C08
 open Go.Proto Model.SigHash Driver
@@ -26,6 +27,12 @@ structure St where
   slots : List (Nat × Slot) := []
   oracle : List Known := []
   keyAddrs : List Bytes := []
+  mPowers : List Int := []
+  mContents : List (Nat × Model.MultiSign.Content) := []
+  mTxs : List (Nat × Model.MultiSign.Content × List Model.MultiSign.Entry) := []
+  mHashes : List (Model.MultiSign.Content × List (Model.MultiSign.Who × Option (Nat × Option Model.MultiSign.Content) × Nat)) := []
+  uDests : List (Nat × List (Nat × Nat × Nat)) := []      -- tx id ↦ (wallet, sub-address index, amount) per confidential output
+  uImages : List (Nat × Nat × Nat) := []                  -- (tx, output, spend-key wallet) in order of first appearance
 
 def keccakItems (items : List Bytes) : Bytes := Go.Keccak.keccak256L (rlpList items)
 
@@ -154,7 +161,140 @@ def parseSigners (s : String) : Option (List (Nat × Int)) :=
 
 def showHex32 (n : Int) : String := natToHexPad n.toNat 64
 
+namespace Mst
+open Model.MultiSign
+
+def parseEntry (s : String) : Option Entry :=
+  match s.splitOn ":" with
+  | [w, k] => do
+    let who ← if w.startsWith "v" then ((w.drop 1).toString.toNat?).map Who.val
+              else if w.startsWith "f" then ((w.drop 1).toString.toNat?).map Who.foreign else none
+    let sig ← if k == "bad" then some SigKind.bad else if k == "unparse" then some .unparse else if k == "empty" then some .empty
+      else if k.startsWith "ok" then
+        match ((k.drop 2).toString).splitOn "@" with
+        | [j, c] => do some (SigKind.ok (← j.toNat?) (← c.toNat?))
+        | _ => none
+      else none
+    some ⟨who, sig⟩
+  | _ => none
+
+def parseContent (toks : List String) : Option Content := do
+  let n ← argNat? toks "nonce"
+  let t ← argInt? toks "type"
+  let m ← argInt? toks "min"
+  let sg ← (arg? toks "signers").bind fun s => (splitComma s).mapM fun p =>
+    match p.splitOn ":" with
+    | [a, w] => do some ((← hexDecode? a), (← w.toInt?))
+    | _ => none
+  some ⟨n, t, m, sg⟩
+
+def showRes : Res → String
+  | .ok => "ok" | .novals => "fail:novals" | .dup => "fail:dup" | .invalidValidator => "fail:invalid-validator"
+  | .sigbytes => "fail:sigbytes" | .insufficient => "fail:insufficient"
+
+/-- what the bytes of a signature entry depend on -/
+def sigId (cs : List (Nat × Content)) : SigKind → Option (Nat × Option Content) × Nat
+  | .ok j c => (some (j, (cs.find? (·.1 == c)).map (·.2)), 0)
+  | .bad => (none, 1) | .unparse => (none, 2) | .empty => (none, 3)
+
+end Mst
+
+def stepMst (st : St) (toks : List String) : St × String :=
+  open Model.MultiSign Mst in
+  match toks with
+  | "m.vals" :: _ =>
+    match argInts? toks "powers" with
+    | some ps => ({ st with mPowers := ps }, s!"ok total={totalPower ps}")
+    | none => (st, "bad-op")
+  | "m.content" :: _ =>
+    match argNat? toks "cid", parseContent toks with
+    | some c, some ct => ({ st with mContents := st.mContents.filter (·.1 != c) ++ [(c, ct)] }, "ok bytes=" ++ hexEncode (signBytes ct))
+    | _, _ => (st, "bad-op")
+  | "m.mk" :: _ =>
+    match argNat? toks "slot", argNat? toks "cid", (arg? toks "sigs").bind (fun s => (splitComma s).mapM parseEntry) with
+    | some i, some c, some es =>
+      match st.mContents.find? (·.1 == c) with
+      | some (_, ct) => ({ st with mTxs := (i, ct, es) :: st.mTxs.filter (·.1 != i) }, "ok")
+      | none => (st, "bad-op")
+    | _, _, _ => (st, "bad-op")
+  | op :: _ =>
+    match (argNat? toks "slot").bind (fun i => (st.mTxs.find? (·.1 == i)).map (fun x => (i, x.2))) with
+    | none => (st, "no-slot")
+    | some (i, ct, es) =>
+      if op == "m.sign" then
+        match argNat? toks "val" with
+        | some v =>
+          let cid := ((st.mContents.find? (·.2 == ct)).map (·.1)).getD 0
+          let es' := es ++ [⟨.val v, .ok v cid⟩]
+          ({ st with mTxs := (i, ct, es') :: st.mTxs.filter (·.1 != i) }, s!"ok n={es'.length}")
+        | none => (st, "bad-op")
+      else if op == "m.verify" then
+        if arg? toks "vals" == some "nil" then (st, Mst.showRes Res.novals)
+        else (st, Mst.showRes (verifySign st.mPowers st.mContents ct es))
+      else if op == "m.info" then
+        (st, s!"from=00000000000000000000000000000000006d7374 err=false to=false nonce={ct.nonce} type=mst token=0000000000000000000000000000000000000000")
+      else if op == "m.hash" then
+        let key := (ct, es.map fun e => (e.who, sigId st.mContents e.sig))
+        match st.mHashes.findIdx? (· == key) with
+        | some k => (st, s!"class={k}")
+        | none => ({ st with mHashes := st.mHashes ++ [key] }, s!"class={st.mHashes.length}")
+      else (st, "bad-op")
+  | [] => (st, "bad-op")
+
+/-- confidential outputs: the ideal functionality of the one-time-address scheme.  An output addressed to (wallet w,
+    sub-address s) is recognised, decoded and spendable by exactly the holder of BOTH keys of w; the view key alone
+    recognises it but derives a secret that does not open the one-time address. -/
+def parseDest (s : String) : Option (Nat × Nat × Nat) :=
+  match s.splitOn ":" with
+  | [ws, a] =>
+    match ws.splitOn "." with
+    | [w, sub] => do some ((← w.toNat?), (← sub.toNat?), (← a.toNat?))
+    | _ => none
+  | _ => none
+
+def stepOwn (st : St) (toks : List String) : St × String :=
+  match toks with
+  | "u.setup" :: _ => ({ st with uDests := [], uImages := [] }, "ok")
+  | "u.ring" :: _ => (st, if arg? toks "field" == some "none" then "base=ok tampered=ok" else "base=ok tampered=rej")
+  | "u.tx" :: _ =>
+    match argNat? toks "id", (arg? toks "dests").bind (fun s => (splitComma s).mapM parseDest) with
+    | some id, some ds =>
+      ({ st with uDests := (id, ds) :: st.uDests.filter (·.1 != id) }, s!"ok outs={ds.length} distinct={ds.length} addkeys={ds.length}")
+    | _, _ => (st, "bad-op")
+  | op :: _ =>
+    match (argNat? toks "tx").bind (fun id => (st.uDests.find? (·.1 == id)).map (fun x => (id, x.2))) with
+    | none => (st, "no-tx")
+    | some (id, ds) =>
+      if op == "u.scan" then
+        match argNat? toks "w" with
+        | some w =>
+          let found := (ds.zipIdx.filter (fun (d, _) => d.1 == w)).map fun (d, k) => s!"{k}:{d.2.1}:{d.2.2}"
+          (st, if found.isEmpty then "-" else ",".intercalate found)
+        | none => (st, "bad-op")
+      else if op == "u.force" then
+        match argNat? toks "w", (argNat? toks "out").bind (ds[·]?) with
+        | some w, some d => (st, if d.1 == w then "opens=true" else "opens=false")
+        | _, _ => (st, "bad-op")
+      else if op == "u.image" then
+        match argNat? toks "view", argNat? toks "spend", argNat? toks "out" with
+        | some v, some sp, some k =>
+          match ds[k]? with
+          | none => (st, "bad-op")
+          | some d =>
+            if d.1 != v then (st, "err")
+            else
+              let key := (id, k, sp)
+              let (st', c) := match st.uImages.findIdx? (· == key) with
+                | some c => (st, c)
+                | none => ({ st with uImages := st.uImages ++ [key] }, st.uImages.length)
+              (st', s!"img={c} opens={decide (sp = d.1)}")
+        | _, _, _ => (st, "bad-op")
+      else (st, "bad-op")
+  | [] => (st, "bad-op")
+
 def step (st : St) (toks : List String) : St × String :=
+  if (toks.headD "").startsWith "m." then stepMst st toks else
+  if (toks.headD "").startsWith "u." then stepOwn st toks else
   match toks with
   | "case" :: _ => ({ chain := (argNat? toks "chain").getD 29153 }, "ok")
   | "keys" :: _ =>
@@ -170,6 +310,7 @@ def step (st : St) (toks : List String) : St × String :=
     | some v, some r, some s, some hs => (st, toString (Gen.SigFacts.validateSignatureValues v r s (hs == "true")))
     | _, _, _, _ => (st, "bad-op")
   | "vinfo" :: _ =>
+    if arg? toks "v" == some "nil" then (st, "protected=true param=0") else   -- isProtectedV(nil), DeriveSignParam(nil)
     match argInt? toks "v" with
     | some v => (st, s!"protected={isProtectedV v} param={deriveSignParam v}")
     | none => (st, "bad-op")
@@ -240,7 +381,29 @@ def step (st : St) (toks : List String) : St × String :=
           | .error .param => "rej:param"
         (putSlot st i sl', ans)
     | none => (st, "bad-op")
+  | "cutfrom" :: _ =>
+    match (argNat? toks "slot").bind (getSlot st) with
+    | none => (st, "no-slot")
+    | some sl =>
+      let nonce := bytesToNat (match lookupField sl.t "AccountNonce" with | [x] => if x == 0x80 then [] else [x] | _ :: r => r | [] => [])
+      (st, s!"from={hexEncode ((lookupField sl.t "FromAddr").drop 1)} err=false to={hexEncode ((lookupField sl.t "Recipient").drop 1)} nonce={nonce} type=cut")
+  | "cutapi" :: _ =>
+    match argNat? toks "slot", parseFields toks, (arg? toks "privs").map splitComma with
+    | some i, some fs, some privs =>
+      let t0 : TxV := { kind := .cut, fields := fs, sigs := [] }
+      let d := keccakItems (signDigestItems (.eip st.chain) t0)
+      -- one signature per key, in order: the oracle entries declared for this digest, matched by position among the keys' entries
+      let cands := st.oracle.filter (fun o => o.digest == d)
+      if cands.length < privs.length then (st, "no-oracle")
+      else
+        -- the generator declares the entries in signing order after one leading duplicate of the first
+        let sigs := (cands.drop (cands.length - privs.length)).map fun o => (⟨signatureV (.eip st.chain) o.recid, o.r, o.s⟩ : Sig)
+        let showSig := fun (g : Sig) => s!"{g.v}:{hexEncode (Model.SigHash.beBytes g.r.toNat)}:{hexEncode (Model.SigHash.beBytes g.s.toNat)}"
+        (putSlot st i { t := { t0 with sigs := sigs }, caches := coldCaches sigs }, "ok sigs=" ++ ",".intercalate (sigs.map showSig))
+    | _, _, _ => (st, "bad-op")
   | "verifysign" :: _ =>
+    if arg? toks "signers" == some "nil" then
+      (match (argNat? toks "slot").bind (getSlot st) with | none => (st, "no-slot") | some _ => (st, "fail")) else
     match argNat? toks "slot", (arg? toks "signers").bind parseSigners, argInt? toks "min" with
     | some i, some signers, some mn =>
       match getSlot st i with
